@@ -5,7 +5,7 @@ from vf.lazy import ck, libx, common
 from vf.monitors import algos, large
 
 PROP = "C03"
-TECHNIQUE = ('runtime monitoring of every algorithm configuration (shared algorithm objects, in-place mutation histories, stand-in CPLEX, bounds-checked and interpreted kernels, crash attribution) with a well-formedness oracle on each returned consensus; repository tests re-run under the monitors; size classes (63-1025 elements, 40-257 rankings); histories on a mutated derived dataset; reshape twins')
+TECHNIQUE = ('runtime monitoring of every algorithm configuration (shared algorithm objects, in-place mutation histories, stand-in CPLEX, bounds-checked and interpreted kernels, crash attribution) with a well-formedness oracle on each returned consensus; repository tests re-run under the monitors; size classes (63-1025 elements, 40-257 rankings); histories on a mutated derived dataset; reshape twins; datasets built from other ranking input forms; datasets pickled by another interpreter under another hash seed')
 RULE = ("cases = dataset (D1-D10, int / string / int-like names in shuffled insertion order, n<=8) x scheme (S1-S3,S6) "
         "x a random subset of the algorithm configurations (20 without CPLEX; +3 CPLEX classes and the CPLEX branches of "
         "the selector / ParCons through the stand-in in mode D) x at-most-one flag x library RNG seed; "
